@@ -244,6 +244,8 @@ class World(HWorld):
             if len(full) % 2:
                 self.viol("met-never-stored", f"walk met a value at the odd-length nibble path {full}")
             key = bytes_of(full)
+            if not isinstance(node.value, (bytes, bytearray)):
+                self.viol("met-never-stored", f"walk met {key.hex()} with a value that is no byte string ({node.value!r}): nothing like it was ever stored")
             pair = (key, bytes(node.value))
             if pair not in w.ever:
                 self.viol("met-never-stored", f"walk met {key.hex()} -> {pair[1]!r}, which was never stored during the walk")
